@@ -220,6 +220,8 @@ def apply_rule(
     )
     its_graphs = {}
     for g2its_mapping in matcher.subgraph_monomorphisms_iter():
+        if n is not None and len(its_graphs) >= n:
+            break
         its2g_mapping = {v: k for k, v in g2its_mapping.items()}
         its = g.copy()
         its_edge_attrs = {}
@@ -232,7 +234,7 @@ def apply_rule(
                 vr = g2its_mapping[v]
                 if rule.r.has_edge(ur, vr):
                     h_bond = rule.r.edges[(ur, vr)][BOND_KEY]
-                else:
+                elif rule.l.has_edge(ur, vr):
                     h_bond = 0
             its_edge_attrs[u, v] = [d[BOND_KEY], h_bond]
 
